@@ -13,7 +13,7 @@ def run(run, tier, seed):
                 "(samples, subset, route, k)")
     run.assumptions = ["sample names are passed through a file list (name<TAB>file)", "ska nk --full-info exposes the whole table"]
     tc.design_and_replay(run, tier, seed, lambda r: any(h["op"]["do"] == "delete" for h in r["hist"]), "c08",
-                         60 if tier == "quick" else 1200)
+                         60 if tier == "quick" else 1200, focus="delete")
     rng = random.Random(seed + 7)
     sb = skacli.Sandbox("c08")
     try:
